@@ -74,6 +74,44 @@ Theorem c18_sub_from_end :
 Proof. exact sub_fn_from_end. Qed.
 Print Assumptions c18_sub_from_end.
 
+(* #pos / #rpos: the first and the last occurrence of the needle at or after the offset; no result means no occurrence
+   (StringFnsProofs.occurs needle s k: the needle is a prefix of s from position k) *)
+From WTP Require Import Proofs.StringFnsProofs.
+Theorem c18_pos_is_the_first_occurrence :
+  forall needle s offset j, find_from needle s offset = Some j ->
+    (offset <= j)%nat /\ occurs needle s j = true /\ forall k, (offset <= k < j)%nat -> occurs needle s k = false.
+Proof. exact pos_is_the_first_occurrence. Qed.
+Print Assumptions c18_pos_is_the_first_occurrence.
+
+Theorem c18_pos_absent_means_no_occurrence :
+  forall needle s offset, (offset <= length s)%nat -> find_from needle s offset = None ->
+    forall k, (offset <= k)%nat -> occurs needle s k = false.
+Proof. exact pos_absent_means_no_occurrence. Qed.
+Print Assumptions c18_pos_absent_means_no_occurrence.
+
+Theorem c18_rpos_is_the_last_occurrence :
+  forall needle s offset j, needle <> [] -> rfind_from needle s offset = Some j ->
+    (offset <= j)%nat /\ occurs needle s j = true /\ forall k, (j < k)%nat -> occurs needle s k = false.
+Proof. exact rpos_is_the_last_occurrence. Qed.
+Print Assumptions c18_rpos_is_the_last_occurrence.
+
+(* #explode: the pieces joined with the delimiter are the string; #replace is splitting at the old text and joining with
+   the new one (so replacing a text by itself changes nothing) *)
+Theorem c18_explode_pieces_join_back :
+  forall s delim, delim <> [] -> ParserFns.join delim (split_fn s delim) = s.
+Proof. exact explode_pieces_join_back. Qed.
+Print Assumptions c18_explode_pieces_join_back.
+
+Theorem c18_replace_is_split_then_join :
+  forall s old new, old <> [] -> replace_fn s old new = ParserFns.join new (split_fn s old).
+Proof. exact replace_is_split_then_join. Qed.
+Print Assumptions c18_replace_is_split_then_join.
+
+Example c18_string_functions_example :
+  find_from [97%N] [98%N; 97%N; 99%N; 97%N] 0 = Some 1%nat /\ rfind_from [97%N] [98%N; 97%N; 99%N; 97%N] 0 = Some 3%nat /\
+  split_fn [98%N; 97%N; 99%N; 97%N] [97%N] = [[98%N]; [99%N]; []] /\ replace_fn [98%N; 97%N; 99%N; 97%N] [97%N] [120%N; 121%N] = [98%N; 120%N; 121%N; 99%N; 120%N; 121%N].
+Proof. repeat split; reflexivity. Qed.
+
 Theorem c18_plural_selects_by_one :
   forall r one many, plural_fn r one many = if str_eqb r [49%N] then one else many.
 Proof. exact plural_selects. Qed.
